@@ -32,12 +32,13 @@ CONSTANTS Uploaders,    \* process names (strings) of uploaders
           UseChmod,     \* fileMode configured (archive.py 839-840)
           Drain, PkgReplace,
           MaxFault, MaxCrash,
+          Planned,      \* generation mode: the behaviour's fault / crash point is chosen in Init (see Plans)
           GenDepth      \* behaviour length in generation mode (0 = no printing)
 
-VARIABLES art, tmp, wr, closed, pay, tgt, pc, pub, rino, robs, fleft, cleft, hist
+VARIABLES art, tmp, wr, closed, pay, tgt, pc, pub, rino, robs, fleft, cleft, plan, hist
 
-vars == <<art, tmp, wr, closed, pay, tgt, pc, pub, rino, robs, fleft, cleft, hist>>
-view == <<art, tmp, wr, closed, pay, tgt, pc, pub, rino, robs, fleft, cleft>>
+vars == <<art, tmp, wr, closed, pay, tgt, pc, pub, rino, robs, fleft, cleft, plan, hist>>
+view == <<art, tmp, wr, closed, pay, tgt, pc, pub, rino, robs, fleft, cleft, plan>>
 
 Writers == Uploaders \cup Mirrors
 Procs   == Writers \cup Readers
@@ -47,9 +48,24 @@ NoName  == <<"-", "-">>
 Complete(w) == wr[w] = N
 
 \* the history is only kept in generation mode (GenDepth > 0)
-H(p, op, a, k) == hist' = IF GenDepth > 0 THEN Append(hist, [p |-> p, op |-> op, a |-> a, k |-> k]) ELSE hist
+\* (last conjunct of every action: obs is the abstract content of the archives after the step)
+Obs == {<<n[1], n[2], pay'[art'[n]], wr'[art'[n]] = N>> : n \in {m \in Names : art'[m] # "-"}}
+H(p, op, a, k) == hist' = IF GenDepth > 0 THEN Append(hist, [p |-> p, op |-> op, a |-> a, k |-> k, obs |-> Obs]) ELSE hist
+
+FaultPcs == {"mktemp", "write", "close", "chmod", "link", "replace", "unlink", "eclose", "eunlink"}
+LivePcs  == FaultPcs \cup {"exists"}
+
+(* Generation mode (Planned): instead of "a fault/crash may strike anywhere" (exhaustive configs) the
+   initial state fixes at most one fault point and one crash point <<process, pc, chunk>>, so that a
+   random walk visits every point equally often; GenBias (an ACTION_CONSTRAINT of the generation
+   configs) then forces the planned event when its point is reached. *)
+NoP    == <<"-", "-", 0>>
+Points(pcs) == {NoP} \cup {<<p, c, n>> \in Writers \X pcs \X (0..(N-1)) : n = 0 \/ c = "write"}
+Plans  == IF Planned THEN [f : Points(FaultPcs), c : Points(LivePcs)] ELSE {[f |-> NoP, c |-> NoP]}
+At(p)  == <<p, pc[p], IF pc[p] = "write" THEN wr[p] ELSE 0>>
 
 Init ==
+  /\ plan \in Plans
   /\ art = [n \in Names |-> "-"]
   /\ tmp = {}
   /\ wr = [w \in Writers |-> 0]
@@ -60,8 +76,8 @@ Init ==
   /\ pub = [w \in Writers |-> FALSE]
   /\ rino = [r \in Readers |-> "-"]
   /\ robs = [r \in Readers |-> "none"]
-  /\ fleft \in 0..MaxFault          \* fault / crash budget of the behaviour
-  /\ cleft \in 0..MaxCrash
+  /\ fleft \in IF Planned THEN {IF plan.f = NoP THEN 0 ELSE 1} ELSE 0..MaxFault   \* fault / crash budget of the behaviour
+  /\ cleft \in IF Planned THEN {IF plan.c = NoP THEN 0 ELSE 1} ELSE 0..MaxCrash
   /\ hist = <<>>
 
 ----------------------------------------------------------------------------
@@ -73,39 +89,39 @@ Start(p, a, k) ==
   /\ p \in Uploaders /\ pc[p] = "idle"
   /\ tgt' = [tgt EXCEPT ![p] = <<a, k>>]
   /\ pc' = [pc EXCEPT ![p] = IF k = "pkg" THEN "exists" ELSE "mktemp"]   \* 776: overwrite => no check
+  /\ UNCHANGED <<art, tmp, wr, closed, pay, pub, rino, robs, fleft, cleft, plan>>
   /\ H(p, "Start", a, k)
-  /\ UNCHANGED <<art, tmp, wr, closed, pay, pub, rino, robs, fleft, cleft>>
 
 \* 776-777: if not overwrite and os.path.isfile(dest): raise ArtifactExistsError  (-> "skipped", 545-546 / 428-429)
 Exists(p) ==
   /\ p \in Writers /\ pc[p] = "exists"
   /\ pc' = [pc EXCEPT ![p] = IF art[tgt[p]] # "-" THEN "skipped" ELSE "mktemp"]
+  /\ UNCHANGED <<art, tmp, wr, closed, pay, tgt, pub, rino, robs, fleft, cleft, plan>>
   /\ H(p, "Exists", "", "")
-  /\ UNCHANGED <<art, tmp, wr, closed, pay, tgt, pub, rino, robs, fleft, cleft>>
 
 \* 780-790: isdir / makedirs(exist_ok) / NamedTemporaryFile(dir=dest dir, delete=False)
 MkTemp(p) ==
   /\ p \in Writers /\ pc[p] = "mktemp"
   /\ tmp' = tmp \cup {p}
   /\ pc' = [pc EXCEPT ![p] = "write"]
+  /\ UNCHANGED <<art, wr, closed, pay, tgt, pub, rino, robs, fleft, cleft, plan>>
   /\ H(p, "MkTemp", "", "")
-  /\ UNCHANGED <<art, wr, closed, pay, tgt, pub, rino, robs, fleft, cleft>>
 
 \* 544 _pack -> gzip/tar writes; 579 writeFileOrHandle; mirror: MirrorLeecher.read 725-739 -> MirrorWriter.write 707-708
 Write(p) ==
   /\ p \in Writers /\ pc[p] = "write" /\ wr[p] < N
   /\ wr' = [wr EXCEPT ![p] = @ + 1]
   /\ pc' = [pc EXCEPT ![p] = IF wr[p] + 1 = N THEN "close" ELSE "write"]
+  /\ UNCHANGED <<art, tmp, closed, pay, tgt, pub, rino, robs, fleft, cleft, plan>>
   /\ H(p, "Write", "", "")
-  /\ UNCHANGED <<art, tmp, closed, pay, tgt, pub, rino, robs, fleft, cleft>>
 
 \* Tee.__exit__ 682-697 when the extractor is done although the source was not read to its end
 \* (tarfile stops at the end-of-archive blocks).  Excluded by the intended design (Drain).
 Stop(p) ==
   /\ p \in Mirrors /\ pc[p] = "write" /\ wr[p] >= 1 /\ ~Drain
   /\ pc' = [pc EXCEPT ![p] = "close"]
+  /\ UNCHANGED <<art, tmp, wr, closed, pay, tgt, pub, rino, robs, fleft, cleft, plan>>
   /\ H(p, "Stop", "", "")
-  /\ UNCHANGED <<art, tmp, wr, closed, pay, tgt, pub, rino, robs, fleft, cleft>>
 
 PublishPc(p) == IF tgt[p][2] = "meta" \/ PkgReplace THEN "replace" ELSE "link"
 
@@ -114,25 +130,25 @@ Close(p) ==
   /\ p \in Writers /\ pc[p] = "close"
   /\ closed' = [closed EXCEPT ![p] = TRUE]
   /\ pc' = [pc EXCEPT ![p] = IF UseChmod THEN "chmod" ELSE PublishPc(p)]
+  /\ UNCHANGED <<art, tmp, wr, pay, tgt, pub, rino, robs, fleft, cleft, plan>>
   /\ H(p, "Close", "", "")
-  /\ UNCHANGED <<art, tmp, wr, pay, tgt, pub, rino, robs, fleft, cleft>>
 
 \* 839-840: os.chmod(tmp, fileMode)
 Chmod(p) ==
   /\ p \in Writers /\ pc[p] = "chmod"
   /\ pc' = [pc EXCEPT ![p] = PublishPc(p)]
+  /\ UNCHANGED <<art, tmp, wr, closed, pay, tgt, pub, rino, robs, fleft, cleft, plan>>
   /\ H(p, "Chmod", "", "")
-  /\ UNCHANGED <<art, tmp, wr, closed, pay, tgt, pub, rino, robs, fleft, cleft>>
 
 \* 848-851: os.link(tmp, dest); FileExistsError -> lost race
 Link(p) ==
   /\ p \in Writers /\ pc[p] = "link"
   /\ IF art[tgt[p]] = "-"
        THEN /\ art' = [art EXCEPT ![tgt[p]] = p] /\ pub' = [pub EXCEPT ![p] = TRUE]
-       ELSE UNCHANGED <<art, pub>>
+       ELSE UNCHANGED <<art, pub, plan>>
   /\ pc' = [pc EXCEPT ![p] = "unlink"]
+  /\ UNCHANGED <<tmp, wr, closed, pay, tgt, rino, robs, fleft, cleft, plan>>
   /\ H(p, "Link", "", "")
-  /\ UNCHANGED <<tmp, wr, closed, pay, tgt, rino, robs, fleft, cleft>>
 
 \* 842-843: os.replace(tmp, dest)   (overwritable metadata files)
 Replace(p) ==
@@ -141,31 +157,31 @@ Replace(p) ==
   /\ tmp' = tmp \ {p}
   /\ pub' = [pub EXCEPT ![p] = TRUE]
   /\ pc' = [pc EXCEPT ![p] = "done"]
+  /\ UNCHANGED <<wr, closed, pay, tgt, rino, robs, fleft, cleft, plan>>
   /\ H(p, "Replace", "", "")
-  /\ UNCHANGED <<wr, closed, pay, tgt, rino, robs, fleft, cleft>>
 
 \* 852-853: finally: os.unlink(tmp)
 Unlink(p) ==
   /\ p \in Writers /\ pc[p] = "unlink"
   /\ tmp' = tmp \ {p}
   /\ pc' = [pc EXCEPT ![p] = "done"]
+  /\ UNCHANGED <<art, wr, closed, pay, tgt, pub, rino, robs, fleft, cleft, plan>>
   /\ H(p, "Unlink", "", "")
-  /\ UNCHANGED <<art, wr, closed, pay, tgt, pub, rino, robs, fleft, cleft>>
 
 \* error path, 836 + 859-860 (__exit__ with an exception; MirrorWriter.abort 715-718): close, unlink
 EClose(p) ==
   /\ p \in Writers /\ pc[p] = "eclose"
   /\ closed' = [closed EXCEPT ![p] = TRUE]
   /\ pc' = [pc EXCEPT ![p] = "eunlink"]
+  /\ UNCHANGED <<art, tmp, wr, pay, tgt, pub, rino, robs, fleft, cleft, plan>>
   /\ H(p, "EClose", "", "")
-  /\ UNCHANGED <<art, tmp, wr, pay, tgt, pub, rino, robs, fleft, cleft>>
 
 EUnlink(p) ==
   /\ p \in Writers /\ pc[p] = "eunlink"
   /\ tmp' = tmp \ {p}
   /\ pc' = [pc EXCEPT ![p] = "failed"]
+  /\ UNCHANGED <<art, wr, closed, pay, tgt, pub, rino, robs, fleft, cleft, plan>>
   /\ H(p, "EUnlink", "", "")
-  /\ UNCHANGED <<art, wr, closed, pay, tgt, pub, rino, robs, fleft, cleft>>
 
 ----------------------------------------------------------------------------
 (* Cache-mirroring downloader: BaseArchive._downloadPackage 436-469 with caches = [MirrorDst],
@@ -177,12 +193,12 @@ MOpen(p) ==
   /\ p \in Mirrors /\ pc[p] = "idle"
   /\ LET s == art[<<MirrorSrc, "pkg">>] IN
        IF s = "-"
-         THEN /\ pc' = [pc EXCEPT ![p] = "notfound"] /\ UNCHANGED <<pay, tgt>>
+         THEN /\ pc' = [pc EXCEPT ![p] = "notfound"] /\ UNCHANGED <<pay, tgt, plan>>
          ELSE /\ pc' = [pc EXCEPT ![p] = "exists"]
               /\ pay' = [pay EXCEPT ![p] = pay[s]]
               /\ tgt' = [tgt EXCEPT ![p] = <<MirrorDst, "pkg">>]
+  /\ UNCHANGED <<art, tmp, wr, closed, pub, rino, robs, fleft, cleft, plan>>
   /\ H(p, "MOpen", "", "")
-  /\ UNCHANGED <<art, tmp, wr, closed, pub, rino, robs, fleft, cleft>>
 
 ----------------------------------------------------------------------------
 (* Reader: opens what is under a name (keeps the inode), reads it later *)
@@ -191,20 +207,18 @@ ROpen(r, n) ==
   /\ r \in Readers /\ pc[r] = "idle"
   /\ rino' = [rino EXCEPT ![r] = art[n]]
   /\ pc' = [pc EXCEPT ![r] = IF art[n] = "-" THEN "done" ELSE "opened"]
+  /\ UNCHANGED <<art, tmp, wr, closed, pay, tgt, pub, robs, fleft, cleft, plan>>
   /\ H(r, "ROpen", n[1], n[2])
-  /\ UNCHANGED <<art, tmp, wr, closed, pay, tgt, pub, robs, fleft, cleft>>
 
 RRead(r) ==
   /\ r \in Readers /\ pc[r] = "opened"
   /\ robs' = [robs EXCEPT ![r] = IF Complete(rino[r]) /\ closed[rino[r]] THEN "ok" ELSE "bad"]
   /\ pc' = [pc EXCEPT ![r] = "done"]
+  /\ UNCHANGED <<art, tmp, wr, closed, pay, tgt, pub, rino, fleft, cleft, plan>>
   /\ H(r, "RRead", "", "")
-  /\ UNCHANGED <<art, tmp, wr, closed, pay, tgt, pub, rino, fleft, cleft>>
 
 ----------------------------------------------------------------------------
 (* environment *)
-
-FaultPcs == {"mktemp", "write", "close", "chmod", "link", "replace", "unlink", "eclose", "eunlink"}
 
 \* I/O error (OSError) raised by the pending operation; the code's error path runs:
 \*   mktemp            -> nothing created, upload fails
@@ -217,20 +231,20 @@ AfterFault(at) == CASE at = "write" -> "eclose"
 
 Fault(p) ==
   /\ p \in Writers /\ fleft > 0 /\ pc[p] \in FaultPcs
+  /\ Planned => plan.f = At(p)
   /\ fleft' = fleft - 1
   /\ pc' = [pc EXCEPT ![p] = AfterFault(pc[p])]
+  /\ UNCHANGED <<art, tmp, wr, closed, pay, tgt, pub, rino, robs, cleft, plan>>
   /\ H(p, "Fault", pc[p], "")
-  /\ UNCHANGED <<art, tmp, wr, closed, pay, tgt, pub, rino, robs, cleft>>
-
-LivePcs == FaultPcs \cup {"exists"}
 
 \* kill -9: the process vanishes at the pending operation, its temp file stays
 Crash(p) ==
   /\ p \in Writers /\ cleft > 0 /\ pc[p] \in LivePcs
+  /\ Planned => plan.c = At(p)
   /\ cleft' = cleft - 1
   /\ pc' = [pc EXCEPT ![p] = "crashed"]
+  /\ UNCHANGED <<art, tmp, wr, closed, pay, tgt, pub, rino, robs, fleft, plan>>
   /\ H(p, "Crash", pc[p], "")
-  /\ UNCHANGED <<art, tmp, wr, closed, pay, tgt, pub, rino, robs, fleft>>
 
 FinalPcs == {"done", "skipped", "failed", "crashed", "notfound"}
 
@@ -292,7 +306,19 @@ ReachFaultCleanup  == ~(\E p \in Writers : pc[p] = "failed" /\ p \notin tmp /\ w
 ReachCrashTemp     == ~(\E p \in Writers : pc[p] = "crashed" /\ p \in tmp /\ \E q \in Writers : q # p /\ pub[q] /\ tgt[q] = tgt[p])
 
 ----------------------------------------------------------------------------
-(* generation: print the history of every behaviour of length GenDepth *)
+(* generation *)
+\* ACTION_CONSTRAINT of the generation configs: force the planned fault / crash at its point; let the
+\* mirror and the reader open only when there is something to find or nobody can publish any more
+GenBias ==
+  /\ \A p \in Writers :
+        ((pc'[p] # pc[p] \/ wr'[p] # wr[p]) /\ ((fleft > 0 /\ plan.f = At(p)) \/ (cleft > 0 /\ plan.c = At(p))))
+          => (fleft' < fleft \/ cleft' < cleft)
+  /\ \A m \in Mirrors : (pc[m] = "idle" /\ pc'[m] # "idle") =>
+        (art[<<MirrorSrc, "pkg">>] # "-" \/ \A u \in Uploaders : pc[u] \in FinalPcs)
+  /\ \A r \in Readers : (pc[r] = "idle" /\ pc'[r] # "idle") =>
+        (rino'[r] # "-" \/ \A w \in Writers : pc[w] \in FinalPcs)
+
+(* print the history of every behaviour of length GenDepth *)
 GenPrint == (GenDepth > 0 /\ TLCGet("level") = GenDepth) => PrintT(<<"@@", ToJson(hist)>>)
 
 =============================================================================
